@@ -28,7 +28,7 @@ EK_NOTE = ('E-K: Kani 0.68/CBMC 6.11 on the compiled code; derivative-cache cont
 ES_TECH = 'symbolic execution by generic instantiation (Sym: DualNum) + SMT (z3 QF_NRA/UF) relational cut-point sweeping; native f64 replay of disagreements'
 
 chk('C01', 'proof',
-    'Partial: (a0) E-M getter map: each of 18 derivative getters of State reduces on its MIR to sel(c, ideal, sign*R[key]) with the key, sign and dual part its definition requires, and each of 37 composite getters (heat capacities, enthalpy, internal/Gibbs energy, molar/specific forms, residual forms, Joule-Thomson, compressibilities, ...) equals its defining formula over the getters it uses (z3, symbolic selector and component indices); (a) E-K (quick: 3 getters, thorough: 11): for a polynomial verification EOS (degree <= 3, symbolic small-integer coefficients) every residual getter of State (pressure, entropy, chemical potential, dp/dV, dp/dT, dp/dN, dmu/dN, dmu/dT, dS/dT, d2S/dT2, d2p/dV2) returns exactly the closed-form partial derivative (sign, dual seeding, cache key); '
+    'Partial: (a0) E-M getter map: each of 18 derivative getters of State reduces on its MIR to sel(c, ideal, sign*R[key]) with the key, sign and dual part its definition requires, and each of 37 composite getters (heat capacities, enthalpy, internal/Gibbs energy, molar/specific forms, residual forms, Joule-Thomson, compressibilities, ...) equals its defining formula over the getters it uses (z3, symbolic selector and component indices); (a) E-K (thorough tier only, 11 getters): for a polynomial verification EOS (degree <= 3, symbolic small-integer coefficients) every residual getter of State (pressure, entropy, chemical potential, dp/dV, dp/dT, dp/dN, dmu/dN, dmu/dT, dS/dT, d2S/dT2, d2p/dV2) returns exactly the closed-form partial derivative (sign, dual seeding, cache key); '
     '(b) E-S: tracing each shipped model at two witnesses gives the same term DAG, i.e. no state-dependent data is concretised through .re() (the mechanism that makes dual parts wrong); (c) E-S: derivative parts computed through Dual/HyperDual/Dual3<Sym> have the homogeneity degrees implied by C02. '
     'The finite-difference formulation over a state grid is not a solver query and is not claimed.',
     ES_NOTE + EK_NOTE + 'Models whose trace concretises (cross-association Newton iterate, SAFT-VRQ Mie effective diameters, ePC-SAFT T-dependent diameters) are listed outside_reach in scope/es_scope.json unless a native finite-difference replay shows a wrong derivative.',
